@@ -15,6 +15,7 @@ import (
 const xmlHeader = "<?xml version=\"1.0\" encoding=\"UTF-8\"?>\n"
 
 type xmlToken struct {
+	In   Value // what was handed to the encoder (before custom marshalling methods)
 	Obj  Value // snapshot (deep copy)
 	Typ  types.Type
 	Key  string
@@ -78,6 +79,13 @@ func (x *Exec) setAttr(t *Term, name string) {
 // equal snapshots of the same type share one symbol (xmlenc is a function),
 // different ones are asserted different (it is injective).
 func (x *Exec) token(kind string, v Value, t types.Type) *Term {
+	var in Value
+	if kind == "xml" {
+		if x.E.typeHasHooks(t, encodeHookNames) || x.E.typeHasHooks(t, decodeHookNames) {
+			in = x.deepCopy(v, 0)
+		}
+		v = x.xmlEncodeHooks(v, t) // custom MarshalXML / MarshalText methods of module types
+	}
 	snap := x.deepCopy(v, 0)
 	key := kind + "|" + t.String() + "|" + x.snapKey(snap, 0)
 	h := sha256.Sum256([]byte(key))
@@ -87,7 +95,7 @@ func (x *Exec) token(kind string, v Value, t types.Type) *Term {
 		for other := range x.xmlTokens {
 			x.assume(Not(Eq(tok, x.sym(other, SStr))))
 		}
-		x.xmlTokens[name] = &xmlToken{Obj: snap, Typ: t, Key: key, Kind: kind}
+		x.xmlTokens[name] = &xmlToken{In: in, Obj: snap, Typ: t, Key: key, Kind: kind}
 		if kind == "xml" {
 			x.assume(PrefixOf(StrC("<"), tok))
 		} else {
@@ -498,7 +506,10 @@ func registerCodecModels(e *Engine) {
 		return &Native{Kind: "xmldec", Data: &streamObj{w: a[0]}}
 	}
 	m["(*encoding/xml.Decoder).Decode"] = func(x *Exec, fr *frame, a []Value) Value {
-		s := a[0].(*Native).Data.(*streamObj)
+		s, ok := a[0].(*Native).Data.(*streamObj)
+		if !ok {
+			panic(abortf("(*xml.Decoder).Decode inside a custom UnmarshalXML (no contract)"))
+		}
 		data, err := x.readAllFrom(fr, s.w)
 		if err != nil {
 			return err
@@ -792,6 +803,10 @@ func (x *Exec) xmlDecode(data *Term, target Value) Value {
 				obj = x.load(op)
 			}
 			x.store(p, obj)
+			// custom UnmarshalXML / UnmarshalText methods of module types
+			if r := x.xmlDecodeHooks(nil, p, et, false); r != nil {
+				return r
+			}
 			return NilIface
 		}
 		return x.errorC("xml: document of another type (expected element type mismatch)")
